@@ -119,6 +119,8 @@ func monoidOf(name string) monoid.Monoid[int] {
 		return monoid.FromOp(0, func(a, b int) int { return a + b })
 	case "prod":
 		return monoid.FromOp(1, func(a, b int) int { return (a % prime) * (b % prime) % prime })
+	case "prodx": // plain product: with distinct primes as input the exponents count how often each element was combined
+		return monoid.FromOp(1, func(a, b int) int { return a * b })
 	case "max":
 		return monoid.FromOp(math.MinInt, func(a, b int) int { return max(a, b) })
 	case "min":
@@ -138,6 +140,7 @@ func monoidOf(name string) monoid.Monoid[int] {
 // countingMonoid counts Combine applications per right-hand element.
 type countingMonoid struct {
 	m        monoid.Monoid[int]
+	e        *driver.Env
 	combines int
 	empties  int
 }
@@ -146,6 +149,17 @@ func (c *countingMonoid) Empty() int { c.empties++; return c.m.Empty() }
 func (c *countingMonoid) Combine(a, b int) int {
 	if !simrt.Free() {
 		c.combines++
+		if c.e != nil {
+			for i := 0; i < c.e.Plan.FnYields; i++ {
+				simrt.Yield("monoid.yield")
+			}
+			if n := len(c.e.Plan.FnStallMs); n > 0 {
+				if d := c.e.Plan.FnStallMs[c.combines%n]; d > 0 {
+					c.e.Fault("fn_stall")
+					simrt.Sleep("monoid.stall", time.Duration(d)*time.Millisecond)
+				}
+			}
+		}
 	}
 	return c.m.Combine(a, b)
 }
@@ -375,7 +389,7 @@ func (s *Sys) indexOf(x int) int {
 // positions.
 func (s *Sys) elemFn() func(int) (int, error) {
 	return func(x int) (int, error) {
-		s.E.Enter(s.Calls, x)
+		defer s.E.Leave(s.Calls, s.E.Enter(s.Calls, x))
 		if s.P.Mode != "pure" && s.fails(s.indexOf(x)) {
 			s.E.Fault("fn_error")
 			return 0, elemErr{x}
@@ -386,21 +400,21 @@ func (s *Sys) elemFn() func(int) (int, error) {
 
 func (s *Sys) predFn() func(int) (bool, error) {
 	return func(x int) (bool, error) {
-		s.E.Enter(s.Calls, x)
+		defer s.E.Leave(s.Calls, s.E.Enter(s.Calls, x))
 		return pred(s.P.Fn, s.P.FnArg, x), nil
 	}
 }
 
 func (s *Sys) visitFn() func(int) (int, error) {
 	return func(x int) (int, error) {
-		s.E.Enter(s.Calls, x)
+		defer s.E.Leave(s.Calls, s.E.Enter(s.Calls, x))
 		return x, nil
 	}
 }
 
 func (s *Sys) arrowFn() func(context.Context, int, chan<- int) error {
 	return func(ctx context.Context, x int, out chan<- int) error {
-		s.E.Enter(s.Calls, x)
+		defer s.E.Leave(s.Calls, s.E.Enter(s.Calls, x))
 		if s.P.Mode != "pure" && s.fails(s.indexOf(x)) {
 			s.E.Fault("fn_error")
 			return elemErr{x}
@@ -423,6 +437,7 @@ func (s *Sys) genFn(unfold bool) func(int) (int, error) {
 		if idx < 0 {
 			return 0, nil
 		}
+		defer s.E.Leave(s.Calls, idx)
 		if s.P.Mode != "pure" && s.fails(idx) {
 			s.E.Fault("fn_error")
 			return 0, elemErr{idx}
@@ -614,7 +629,7 @@ func BuildStage(e *driver.Env, clause string) *Sys {
 		case "Void":
 			s.consumeDone(fork.Void(ctx, par, s.input(0)))
 		case "Fold":
-			s.Mon = &countingMonoid{m: monoidOf(p.Monoid)}
+			s.Mon = &countingMonoid{m: monoidOf(p.Monoid), e: e}
 			s.multiset = false
 			s.consumeOut(fork.Fold(ctx, par, s.input(0), s.Mon))
 		default:
